@@ -15,7 +15,7 @@ RULE = ("executable programs: (a) random nestings of loops (counts 0,1,2,3, let-
 ASSUMPTIONS = ["termination restated as bounded progress: budget = 20000 + 400 * (unrolled size + subcircuits * nodes) * (loop depth + 1) line events",
                "visit sequence judged only when no subcircuit straddles a loop boundary (others: termination and bookkeeping only)"]
 TIERS = {"quick": {"shards": 8, "budget_s": 100}, "thorough": {"shards": 16, "budget_s": 420}}
-REQUIRE = {"macros-expanded-before-overrides": 500, "job-executions-observed": 300, "zero-loop-around-subcircuit": 30, "visit-sequences-compared": 300, "output-lists-compared": 300,
+REQUIRE = {"overrides-applied-by-the-parser": 200, "macros-expanded-before-overrides": 500, "job-executions-observed": 300, "zero-loop-around-subcircuit": 30, "visit-sequences-compared": 300, "output-lists-compared": 300,
            "let-count": 30, "override-count": 10, "readouts-observed": 1000}
 
 
@@ -48,6 +48,13 @@ def judge(case):
         if om[0] != "ok":
             return "skipped:expand-macros-first-rejected", [], info
         s.c = om[1]
+    if case.get("order") == "PLM" and ov:
+        # the parser substitutes lets and aliases itself, under the overrides; the result is run as it is
+        op = lib.outcome(lib.parse, s.text, X.native(), expand_let_map=True, override_dict=dict(ov))
+        if op[0] != "ok":
+            return "skipped:parser-expand-let-map-" + op[0], [], info
+        s.c = op[1]
+        ov = {}
     if case.get("job"):
         return judge_job(s, ov, subs, straddle, info, budget)
     o = X.run(s, ov, seed=case.get("npseed", 1), budget=budget)
@@ -218,6 +225,8 @@ def process(ctx, case, seen):
     rec.count("readouts-observed", info.get("readouts", 0))
     if case.get("order") == "ML":
         rec.count("macros-expanded-before-overrides")
+    if case.get("order") == "PLM":
+        rec.count("overrides-applied-by-the-parser")
     if case.get("job"):
         rec.count("job-executions-observed", info.get("job_executions", 0))
         for clause, detail in fails:
@@ -255,6 +264,8 @@ def process(ctx, case, seen):
             feats.add("zero-loop-around-subcircuit")
         if small_case.get("order") == "ML":
             feats.add("macros-expanded-before-overrides")
+        if small_case.get("order") == "PLM":
+            feats.add("overrides-applied-by-the-parser")
         rec.violation(sig("C08", clause, feats), d2[0][1] if d2 else detail, small_case)
 
 
@@ -296,7 +307,9 @@ def shard(ctx):
             if ov:
                 case["ov"] = ov
         r = rng.random()
-        if r < 0.2:
+        if case.get("ov") and rng.random() < 0.3:
+            case["order"] = "PLM"
+        elif r < 0.2:
             case["order"] = "ML"
         elif r < 0.3:
             case["job"] = True
